@@ -35,6 +35,25 @@ def run(repo, rep):
     rep.floor('C20.d', SS.fresh_visited(repo, rep, 'C20.d'), 8)
     lock_names = {name for (_, name) in SS.locks(repo)}
     rep.analysed['locks'] = sorted(lock_names)
+    # C20.e: locks are waited for.  A try-lock (acquire(False) / acquire(blocking=False) / a timeout) inside the printing pipeline has a
+    # branch for "somebody else holds it" - on that branch the thread goes on without the work the lock protects (a promotion that is
+    # skipped: the printer is in neither registry for this call), which is exactly an interleaving-dependent result.
+    ne = 0
+    fns_ = {f.key: f for f in repo.all_functions()}
+    for k_ in sorted(cone):
+        f = fns_.get(k_)
+        if f is None:
+            continue
+        for c in ast.walk(f.node):
+            if isinstance(c, ast.Call) and isinstance(c.func, ast.Attribute) and c.func.attr == 'acquire':
+                ne += 1
+                nonblocking = any(k.arg in ('blocking', 'timeout') and not (k.arg == 'blocking' and isinstance(k.value, ast.Constant) and k.value.value is True)
+                                  for k in c.keywords) or \
+                    (c.args and not (isinstance(c.args[0], ast.Constant) and c.args[0].value is True))
+                rep.check(not nonblocking, 'C20.e', '%s:acquire:%s' % (f.qualname, src(c.func.value)), '%s:%d' % (f.module.relpath, c.lineno),
+                          'blocking acquire', '%s tries %s without waiting (%s): when another thread holds the lock this call goes on without the '
+                          'protected step, so its result depends on the interleaving' % (f.key, src(c.func.value), src(c)), nontrivial=True)
+    rep.count(ne)
     written = {s.obj.key for s in cone_sites if s.kind == 'write'}
     removers = {}
     for s in sites:
